@@ -84,6 +84,10 @@ def fingerprint_url(url, unsplit=True, strip_suffix=False, platform_aware=False)
         platform_aware=platform_aware,
         lowercase=True,
     )
+    # NOTE: a url that cannot be parsed is returned as is by `normalize_url`
+    if not isinstance(splitted, SplitResult):
+        return splitted
+
     _, netloc, path, query, fragment = splitted
 
     user, password, hostname, port = (
